@@ -45,13 +45,23 @@ const TYPES: [FileType; 4] = [FileType::Key, FileType::Snapshot, FileType::Index
 #[derive(Debug, Default)]
 struct Store {
     map: RwLock<BTreeMap<Key, Bytes>>,
+    /// the index file that arrives last (`stream_all` yields index files "in arbitrary order"): it is
+    /// listed last and reading it takes a while; among several entries of one blob the lookup of an
+    /// index answers depending on that order
+    last_index: RwLock<Option<Id>>,
 }
 impl Store {
     fn snapshot(&self) -> BTreeMap<Key, Bytes> {
         self.map.read().unwrap().clone()
     }
     fn from_map(m: BTreeMap<Key, Bytes>) -> Arc<Self> {
-        Arc::new(Self { map: RwLock::new(m) })
+        Arc::new(Self { map: RwLock::new(m), last_index: RwLock::new(None) })
+    }
+    fn set_last_index(&self, id: Option<Id>) {
+        *self.last_index.write().unwrap() = id;
+    }
+    fn is_last(&self, tpe: FileType, id: &Id) -> bool {
+        tpe == FileType::Index && self.last_index.read().unwrap().as_ref() == Some(id)
     }
     fn err(what: &str, tpe: FileType, id: &Id) -> Box<RusticError> {
         RusticError::new(ErrorKind::Backend, format!("store: {what} {tpe:?} {id}"))
@@ -63,9 +73,14 @@ impl ReadBackend for Store {
     }
     fn list_with_size(&self, tpe: FileType) -> RusticResult<Vec<(Id, u32)>> {
         let t = tidx(tpe);
-        Ok(self.map.read().unwrap().iter().filter(|((x, _), _)| *x == t).map(|((_, id), b)| (*id, b.len() as u32)).collect())
+        let mut l: Vec<(Id, u32)> = self.map.read().unwrap().iter().filter(|((x, _), _)| *x == t).map(|((_, id), b)| (*id, b.len() as u32)).collect();
+        l.sort_by_key(|(id, _)| self.is_last(tpe, id));
+        Ok(l)
     }
     fn read_full(&self, tpe: FileType, id: &Id) -> RusticResult<Bytes> {
+        if self.is_last(tpe, id) {
+            std::thread::sleep(std::time::Duration::from_millis(150));
+        }
         self.map.read().unwrap().get(&(tidx(tpe), *id)).cloned().ok_or_else(|| Self::err("no such file", tpe, id))
     }
     fn read_partial(&self, tpe: FileType, id: &Id, _c: bool, offset: u32, length: u32) -> RusticResult<Bytes> {
@@ -172,6 +187,8 @@ fn prune(repo: &RepoOpen, r: &mut SplitMix, log: &mut Vec<String>) -> Result<()>
 
 /// scenario 0: random history; 1: equal-layout flat trees (root-only tree packs); 2: nested fixed trees;
 /// 3: random history + a backup made with a stale index (duplicate blobs in two packs);
+/// 6: as 3 with `steps` = 1: two clients, one stale, nothing else (the fault sweep then tries every index arrival order);
+/// 7: snapshots with delete marks (delete-after past / future, delete-never), none forgotten;
 /// 4: forget + marking prune with repack (needed blobs also in packs_to_delete); 5: disjoint backups, first forgotten, no prune
 fn build_history(seed: u64, scenario: u64, steps: usize, datapack: u32, treepack: u32, work: &Path) -> Result<Hist> {
     let mut r = SplitMix(seed ^ 0xC05);
@@ -232,6 +249,42 @@ fn build_history(seed: u64, scenario: u64, steps: usize, datapack: u32, treepack
                 log.push("backup".into());
             }
         }
+        7 => {
+            // snapshots with delete marks, none forgotten: delete-after in the past (expired, still in the
+            // repository and restorable), delete-after in the future, delete-never, unmarked; disjoint data
+            use rustic_core::repofile::DeleteOption;
+            let now = rustic_core::jiff::Zoned::now();
+            let past = now.checked_sub(rustic_core::jiff::Span::new().hours(48)).map_err(|e| anyhow!("{e}"))?;
+            let future = now.checked_add(rustic_core::jiff::Span::new().hours(48)).map_err(|e| anyhow!("{e}"))?;
+            let mut marks = vec![("delete-after-past", DeleteOption::After(past)), ("delete-after-future", DeleteOption::After(future)),
+                                 ("delete-never", DeleteOption::Never), ("unmarked", DeleteOption::NotSet)];
+            // seeded order, the expired one anywhere
+            for i in (1..marks.len()).rev() {
+                let j = r.below(i as u64 + 1) as usize;
+                marks.swap(i, j);
+            }
+            marks.truncate(steps.clamp(2, 4));
+            if !marks.iter().any(|m| m.0 == "delete-after-past") {
+                marks[0] = ("delete-after-past", DeleteOption::After(now.checked_sub(rustic_core::jiff::Span::new().hours(30)).map_err(|e| anyhow!("{e}"))?));
+            }
+            for (k, (name, mark)) in marks.into_iter().enumerate() {
+                let mut e = vec![Entry { path: format!("s{k}dir").into(), kind: Kind::Dir, mode: 0o755, mtime: (1_600_000_000, 7) }];
+                let n = 2 + r.below(2) as usize;
+                for i in 0..n {
+                    let pth: PathBuf = if i % 2 == 0 { format!("s{k}f{i}").into() } else { format!("s{k}dir/s{k}f{i}").into() };
+                    e.push(Entry { path: pth, kind: Kind::File(Content::Random { seed: r.next(), len: 1000 + r.below(4000) as usize }), mode: 0o644, mtime: (1_600_000_000, 0) });
+                }
+                rewrite_dir(&src, &e)?;
+                let ix = repo.to_indexed_ids()?;
+                let opts = rustic_core::BackupOptions::default().as_path(PathBuf::from("src"));
+                let mut snap = SnapshotFile::default();
+                snap.delete = mark;
+                let _ = ix.backup(&opts, &rustic_core::PathList::from_iter(Some(src.clone())), snap)?;
+                repo = ix.drop_index();
+                nsnap += 1;
+                log.push(format!("backup({name})"));
+            }
+        }
         5 => {
             // backup A; backup B (disjoint data); forget A; no prune: the index file of the first
             // backup lists nothing the remaining snapshot needs
@@ -271,7 +324,7 @@ fn build_history(seed: u64, scenario: u64, steps: usize, datapack: u32, treepack
                         mutate(&mut r, &mut entries, step, &tp);
                     }
                     rewrite_dir(&src, &entries)?;
-                    if scenario == 3 && nsnap == 0 {
+                    if (scenario == 3 || scenario == 6) && nsnap == 0 {
                         // a second client whose index was loaded before this backup is written
                         // re-uploads every blob afterwards: each (type, id) then lives in two packs
                         let stale = open_repo(store.clone(), None, &key, &repo_opts())?.to_indexed_ids()?;
@@ -767,7 +820,20 @@ fn run_history(line: &str, out: &mut impl std::io::Write) -> Result<()> {
             continue;
         }
         let st = Store::from_map(m);
-        let (verdict, kinds) = run_check(st.clone(), &h.key);
+        // index arrival orders to try: one run with the store's own order, or (two-client scenario, damage
+        // inside a blob) one run per index file arriving last — for check and, independently, for restore
+        let sweep = scenario == 6 && tpe == FileType::Pack && matches!(&f, Fault::Flip(_, c) if c.starts_with("blob-"));
+        let orders: Vec<Option<Id>> = if sweep { st.list_with_size(FileType::Index)?.into_iter().map(|(i, _)| Some(i)).collect() } else { vec![None] };
+        let (mut verdict, mut kinds) = (String::new(), Vec::new());
+        for o in &orders {
+            st.set_last_index(*o);
+            let (v, k) = run_check(st.clone(), &h.key);
+            // the property must hold for every order: keep a clean verdict if any order gives one
+            if verdict.is_empty() || v == "clean" {
+                verdict = v;
+                kinds = k;
+            }
+        }
         let mut bad = Vec::new();
         let mut nrest = 0;
         let present: BTreeSet<String> = st.list_with_size(FileType::Snapshot)?.into_iter().map(|(i, _)| i.to_hex().to_string()).collect();
@@ -780,7 +846,19 @@ fn run_history(line: &str, out: &mut impl std::io::Write) -> Result<()> {
                 std::fs::remove_dir_all(&scratch)?;
             }
             std::fs::create_dir_all(&scratch)?;
-            let r = run_restore(st.clone(), &h.key, s, &scratch);
+            let mut r = String::from("ok");
+            for o in &orders {
+                st.set_last_index(*o);
+                if scratch.exists() {
+                    std::fs::remove_dir_all(&scratch)?;
+                }
+                std::fs::create_dir_all(&scratch)?;
+                r = run_restore(st.clone(), &h.key, s, &scratch);
+                if r != "ok" {
+                    break;
+                }
+            }
+            st.set_last_index(None);
             if r != "ok" {
                 bad.push(format!("{}:{r}", &s[..8]));
                 continue;
@@ -825,8 +903,8 @@ fn run_history(line: &str, out: &mut impl std::io::Write) -> Result<()> {
             }
             cycle = if missed.is_empty() { "ok".to_string() } else { format!("missed:{}", missed.join("+")) };
         }
-        writeln!(out, "F {}/{}/{}/{} file={} check={verdict} kinds={} restored={nrest} restore={} cycle={cycle}", tpe.dirname(), &id.to_hex().as_str()[..8], f.kind(), f.detail(),
-            describe(tpe, &id, &lay), if kinds.is_empty() { "-".to_string() } else { kinds.join("+") }, if bad.is_empty() { "ok".to_string() } else { bad.join("+") })?;
+        writeln!(out, "F {}/{}/{}/{} file={} check={verdict} kinds={} restored={nrest} restore={} cycle={cycle} orders={}", tpe.dirname(), &id.to_hex().as_str()[..8], f.kind(), f.detail(),
+            describe(tpe, &id, &lay), if kinds.is_empty() { "-".to_string() } else { kinds.join("+") }, if bad.is_empty() { "ok".to_string() } else { bad.join("+") }, orders.len())?;
         if dump {
             match quiet(|| dump_state(&st, &h.key)) {
                 Ok(Ok(d)) => writeln!(out, "D {d}")?,
